@@ -1,4 +1,15 @@
 import Restic.Model.Policy
+/-!
+# C22 — Retention policies keep exactly the documented snapshots
+
+Theorems about `Restic.Model.Policy` (transcription of ApplyPolicy, findLatestTimestamp, the bucket
+key functions). Plan: the stateful loop is decomposed into per-rule bucket states (`loop_flags`),
+the bucket states after a prefix are put in closed form (`bucketAfter_closed`,
+`wbucketAfter_closed`), which gives the position-wise "runs" form `keptRuns` of all rules; for
+regular period keys (non-increasing, no sentinel) this is the documented "periods" form
+`keptPeriods`. Main results: `applyPolicy_specOK`, `partition`, `reasons_aligned`, `keep_iff`,
+`keep_iff_periods`, `keep_last`, `key_injective_*`, `monotone`, `findLatest_spec`.
+-/
 namespace Restic.Props.C22
 open Restic.Model.Snapshots Restic.Model.Policy
 
@@ -1122,6 +1133,75 @@ theorem monotone_count_example : countLe 3 5 ∧ countLe 3 (-1) ∧ countLe 0 1 
   rintro (h | ⟨h, _⟩)
   · cases h
   · exact h rfl
+
+
+
+/-- **keep_bucket_spec** (documented form): when the period keys of the sorted list are regular
+    (non-increasing, none equal to -1: one time zone, years ≥ 0), a snapshot is kept iff it carries a
+    keep-tag list, or lies in the `within` window, or fewer than `keep-last` snapshots are newer, or —
+    for some period rule — it is the newest snapshot of its period (or the oldest snapshot of all)
+    and fewer than `n` distinct periods are more recent, or the same inside a `within-<period>`
+    window. -/
+theorem keep_iff_periods (sub : Int → Dur → Int) (now : Int) (l : List PSnap) (p : Policy) (ds : List Decision)
+    (h : applyPolicy sub now l p = .ok ds) (hreg : keysRegular (sortNewestFirst l) = true) (x : PSnap) :
+    x ∈ keepOf ds ↔ ∃ pre rest, sortNewestFirst l = pre ++ x :: rest ∧
+      keptPeriods ⟨sub, latestOf now l, p⟩ pre x rest.isEmpty = true := by
+  rw [keep_iff sub now l p ds h]
+  constructor
+  · rintro ⟨pre, rest, hs, hk⟩
+    exact ⟨pre, rest, hs, by rw [← keptRuns_eq_keptPeriods _ _ _ _ (regularAt_of_keysRegular _ pre rest x hs hreg)]; exact hk⟩
+  · rintro ⟨pre, rest, hs, hk⟩
+    exact ⟨pre, rest, hs, by rw [keptRuns_eq_keptPeriods _ _ _ _ (regularAt_of_keysRegular _ pre rest x hs hreg)]; exact hk⟩
+
+/-- regular keys are what the civil-field laws give for a list in one time zone: a sufficient
+    condition in terms of the oracle is that the keys are non-increasing and all years are ≥ 0 -/
+theorem keysRegular_of (l : List PSnap)
+    (hanti : ∀ k ∈ withinKinds, antitone (keysOf k 0 l) = true)
+    (hciv : ∀ s ∈ l, CivilOK s.civ ∧ 0 ≤ s.civ.year ∧ 0 ≤ s.civ.isoYear) : keysRegular l = true := by
+  simp only [keysRegular, List.all_eq_true, Bool.and_eq_true, Bool.not_eq_true']
+  intro k hk
+  refine ⟨hanti k hk, ?_⟩
+  have hne : k ≠ .last := by intro e; subst e; simp [withinKinds] at hk
+  have : ∀ (nr : Nat) (l' : List PSnap), (∀ s ∈ l', s ∈ l) → (-1 : Int) ∉ keysOf k nr l' := by
+    intro nr l'
+    induction l' generalizing nr with
+    | nil => intro _; simp [keysOf]
+    | cons s rest ih =>
+      intro hsub hm
+      simp only [keysOf, List.mem_cons] at hm
+      rcases hm with hm | hm
+      · have hc := hciv s (hsub s (by simp))
+        exact key_ne_sentinel k hne s.civ nr hc.1 hc.2.1 hc.2.2 hm.symm
+      · exact ih (nr + 1) (fun s' hs' => hsub s' (List.mem_cons_of_mem _ hs')) hm
+  have := this 0 l (fun _ h => h)
+  cases hc : (keysOf k 0 l).contains (-1) with
+  | false => rfl
+  | true => exact absurd (List.contains_iff_mem.mp hc) this
+
+/-! ## non-vacuity -/
+
+def keepIds : Result → List Nat
+  | .ok ds => (keepOf ds).map (·.sn.id)
+  | .panic => []
+def removeIds : Result → List Nat
+  | .ok ds => (removeOf ds).map (·.sn.id)
+  | .panic => []
+def mkSnap (id : Nat) (t : Int) (d h : Int) : PSnap := ⟨⟨id, t, "h", ["/p"], []⟩, ⟨2024, 5, d, h, 2024, 19⟩⟩
+def exList : List PSnap := [mkSnap 0 100 10 8, mkSnap 1 400 12 9, mkSnap 2 300 11 23, mkSnap 3 200 11 7]
+
+/-- four daily backups on three days, `--keep-daily 2`: the newest snapshot of each of the two most
+    recent days is kept; hypotheses of the theorems (regular keys, CivilOK) hold for this list -/
+example :
+    keepIds (applyPolicy (fun t _ => t) 1000 exList { onlyLast 0 with daily := 2 }) = [1, 2] ∧
+    removeIds (applyPolicy (fun t _ => t) 1000 exList { onlyLast 0 with daily := 2 }) = [3, 0] ∧
+    keysRegular (sortNewestFirst exList) = true := by decide
+
+/-- `--keep-daily 5` on the same list also keeps the oldest snapshot; equal timestamps keep their
+    input order (stable sort) -/
+example :
+    keepIds (applyPolicy (fun t _ => t) 1000 exList { onlyLast 0 with daily := 5 }) = [1, 2, 0] ∧
+    (sortNewestFirst [mkSnap 0 100 10 8, mkSnap 1 300 11 9, mkSnap 2 300 11 9, mkSnap 3 200 11 7]).map (·.sn.id) = [1, 2, 3, 0] := by
+  decide
 
 
 end Restic.Props.C22
